@@ -8,6 +8,8 @@ Grid operations on every modal basis vector with level counts not divisible by t
 implicit operators and whole model steps are executed and compared, after cropping the padding, with the
 single-device computation on the same data.  Padding must stay finite.  Meshes with an odd x or y axis > 1
 must be rejected with the library's own ValueError (documented rejection), never silently mis-computed.
+
+Extensions after the seeded-breakage rounds (DESIGN.md 8.5): Grid operations run in variants that populate every x / y shard with resolved coefficients (shape multiple 1 / 2, and larger grids under the library default multiple 8; rank-2 and rank-3 fields); the evidence reports how many shards hold resolved coefficients.  The two ring collectives are additionally executed for every even axis size up to 16 (thorough 64) through jax.vmap(axis_name=...) with one-hot inputs (exact oracle).
 """
 import itertools
 import math
